@@ -88,6 +88,15 @@ def c20(ck, tier, seed):
     # stress histories (few operands, every operator again and again, add_vars / gc / reorder in between)
     base = {"count": 15 if tier == "quick" else 150, "nmax": 5, "steps": 120, "stress": 1}
     _record_and_replay(ck, "C20", tier, seed + 500, base, variants, features_list=ALL_FEATURES, sub="stress")
+    # TDD (ternary nodes) exists on both backends: the TDD histories (all operators, cofactors, 3 variables under all
+    # orders with reorderings in between) executed by the pointer-based builds, validated by TraceMV
+    for feats in (["ptr,cache,mt"] if tier == "quick" else ["ptr,cache,mt", "ptr,cache", "ptr,mt", "ptr"]):
+        binary = vlib.build_harness(feats)
+        od = os.path.join(ck.outdir, "tdd-" + feats.replace(",", "_"))
+        res = vlib.run_driver(binary, "tdd", {"seed": seed + 31, "tier": tier}, od, timeout=1800)
+        tfiles = ck.add_driver(res)
+        ck.add_validation(vlib.validate("TraceMV", tfiles, ["C20"]), driver_cmd=[" ".join(map(str, res["cmd"]))])
+    ck.cov["rule"] += "; TDD histories executed by the pointer-based builds (TraceMV, obligations owned by C20)"
     ck.assumptions += ["features hugealloc / statistics / parking_lot are not varied", "MTBDD exists on the index backend only"]
 
 
